@@ -113,12 +113,15 @@ fn plan_sweep(p: &SessionParams, pool: &Pool) -> (Plan, SessionMeta) {
         .iter()
         .map(|e| &e.req)
         .chain(pool.directed.iter());
-    let mut pending: Vec<usize> = Vec::new();
-    for (i, r) in all.enumerate() {
+    // first pass: this session's own shard on the initial thread under fresh keys; second pass:
+    // the NEXT shard on a worker under counting keys — so every pool item is delivered in two
+    // different processes (this one and its neighbour), under two different histories
+    let all: Vec<&Request> = all.collect();
+    for (i, r) in all.iter().enumerate() {
         if i % n != k {
             continue;
         }
-        plan.reqs.push(r.clone());
+        plan.reqs.push((*r).clone());
         let ri = plan.reqs.len() - 1;
         plan.steps.push(Step {
             req: ri,
@@ -126,24 +129,29 @@ fn plan_sweep(p: &SessionParams, pool: &Pool) -> (Plan, SessionMeta) {
             policy: Policy::Keyed { k0: keys.next_u64(), k1: keys.next_u64() },
             kinds: vec!["main-thread".into(), "rekey".into()],
         });
-        pending.push(ri);
-        if pending.len() >= 8 {
-            for ri in pending.drain(..) {
-                plan.steps.push(Step {
-                    req: ri,
-                    thread: "w0".into(),
-                    policy: Policy::Counting { k0: keys.next_u64(), k1: keys.next_u64() },
-                    kinds: vec!["redeliver-later".into(), "thread-switch".into(), "std-like-keys".into()],
-                });
-            }
+    }
+    let own = plan.reqs.len();
+    for ri in 0..own {
+        if ri % 8 == 0 {
+            plan.steps.push(Step {
+                req: ri,
+                thread: "w0".into(),
+                policy: Policy::Counting { k0: keys.next_u64(), k1: keys.next_u64() },
+                kinds: vec!["redeliver-later".into(), "thread-switch".into(), "std-like-keys".into()],
+            });
         }
     }
-    for ri in pending.drain(..) {
+    for (i, r) in all.iter().enumerate() {
+        if n == 1 || i % n != (k + 1) % n {
+            continue;
+        }
+        plan.reqs.push((*r).clone());
+        let ri = plan.reqs.len() - 1;
         plan.steps.push(Step {
             req: ri,
             thread: "w0".into(),
             policy: Policy::Counting { k0: keys.next_u64(), k1: keys.next_u64() },
-            kinds: vec!["redeliver-later".into(), "thread-switch".into(), "std-like-keys".into()],
+            kinds: vec!["thread-switch".into(), "std-like-keys".into()],
         });
     }
     for st in &plan.steps {
